@@ -4,10 +4,14 @@ from common import *
 import kernel, slp
 
 COQ_PROPS = 'props/C10.v'
-PARTIAL = ('proved for every operation and every history: existing numbers are never modified (only the uncertainty cache can be '
-           'filled), reads are idempotent, variance = covariance(y,y); the full statement is refuted by the cache (known finding '
-           'C10-cache) and holds for histories in which no correlation is declared after a dependent result was read or declared '
-           'intermediate -- that restricted claim is validated by the history-pair oracle and by correspondence, not proved')
+PARTIAL = ('proved for every operation and every history, every number instance: existing numbers are never modified (only the '
+           'uncertainty cache can be filled), reads are idempotent, variance = covariance(y,y); every report depends on the session '
+           'only through the registered leaf/node attributes and correlations (frame theorem); cache validity (every cached '
+           'uncertainty = a fresh evaluation in the current state) holds initially and is preserved by EVERY operation except a '
+           'set_correlation issued after some number was read, hence after every history without such a set_correlation what a '
+           'number reports does not depend on what was read before (C10_reported_uncertainty_is_history_free); the full statement '
+           'is refuted by the cache (known finding C10-cache: a correlation declared after a read). Budgets, string forms, '
+           'archiving and complex numbers: correspondence and history-pair oracle only')
 ASSUMPTIONS = []
 TRUSTED = []
 
